@@ -17,8 +17,8 @@ EXPLANATION = ('The repository header engine_global_table.h is instantiated on V
                'asked for; two concurrent registrations of different keys get the two distinct slots 0 and 1 and both objects are in the table afterwards; two concurrent registrations of the same key with equal payload get the same '
                'slot, and count stays 1; with different payloads exactly one wins and the other ends in mju_error; sequential histories: slots are dense (0,1,2,...), stable, case-insensitive duplicates map to the first slot, '
                'lookups by name and slot agree, unknown keys and slots >= count return nothing.')
-BOUNDS = {'quick': {'threads': 'writer+reader(slot), writer+reader(key), writer+writer (distinct keys / same key)', 'table': 'empty or holding one object at the start', 'histories': 'up to 3 sequential registrations with duplicate keys; 17 registrations across the 15-object block boundary'},
-          'thorough': {'threads': 'plus two writers and a reader', 'histories': 'up to 4'}}
+BOUNDS = {'quick': {'threads': 'writer+reader(slot), writer+reader(key), writer+writer (distinct keys / same key)', 'table': 'empty or holding one object at the start', 'histories': 'up to 4 sequential registrations with duplicate keys; 17 / 31 registrations across one / two 15-object block boundaries'},
+          'thorough': {'threads': 'plus two writers and a reader', 'histories': '46 registrations (three block boundaries)'}}
 OUTSIDE = ('weak-memory reorderings (the exploration is sequentially consistent; the acquire/release annotations themselves are not checked); concurrent registrations across the block boundary at 15 objects (the boundary is crossed in the sequential histories of 17 / 31 registrations); allocation failure of a new block; the real plugin / resource-provider / decoder object types of engine_plugin.cc (string-owning C++ objects); ThreadSanitizer-level data-race detection.')
 ASSUMPTIONS = ['error-message formatting (snprintf, the temporary std::string) has empty bodies', 'sequential consistency', 'std::mutex::lock / unlock = a blocking lock (pthread_mutex_lock / unlock are stubbed accordingly)', 'thread_local lock counter: one cell per thread', 'std::tolower on ASCII letters',
                'keys are NUL-terminated within 8 bytes']
@@ -401,5 +401,6 @@ def units(tier):
     u = [('writer_reader_slot_pre0', 'unit_writer_reader', {'by': 'slot', 'pre': 0}), ('writer_reader_key_pre0', 'unit_writer_reader', {'by': 'key', 'pre': 0}), ('writer_reader_slot_pre1', 'unit_writer_reader', {'by': 'slot', 'pre': 1}),
          ('two_writers_distinct', 'unit_two_writers', {'same_key': False, 'equal': False}), ('two_writers_same_eq', 'unit_two_writers', {'same_key': True, 'equal': True}), ('two_writers_same_ne', 'unit_two_writers', {'same_key': True, 'equal': False}),
          ('history_n3', 'unit_history', {'n': 3}), ('writer_reader_key_pre1', 'unit_writer_reader', {'by': 'key', 'pre': 1}), ('history_long_n17', 'unit_history_long', {'n': 17})]
-    if tier != 'quick': u += [('history_n4', 'unit_history', {'n': 4}), ('history_long_n31', 'unit_history_long', {'n': 31})]
+    u += [('history_n4', 'unit_history', {'n': 4}), ('history_long_n31', 'unit_history_long', {'n': 31})]
+    if tier != 'quick': u += [('history_long_n46', 'unit_history_long', {'n': 46})]
     return u
